@@ -261,6 +261,14 @@ def eval_rt(ctx: Ctx, c: dict):
             return
     text = texts[1]
     corr_print(ctx, c, tname, rd, st, origin, text)
+    if tname in MODEL and tname not in NOWIRE:
+        # the model's wire encoder (used by the generic-form re-encode check and by `text_accepts_encodable`)
+        wo = origin if origin is not None else dns.name.root
+        try:
+            wimpl = "ok " + hx(rd.to_wire(origin=wo))
+        except Exception:
+            wimpl = "err"
+        ctx.corr(f"c05.wire.enc {tname} o={enc_optname(wo)} {dump(tname, rd)}", wimpl, c)
     if text is None:
         return
     c["_text"] = text  # for the replay file only
@@ -536,11 +544,17 @@ MODEL = {
     "DSYNC": ([("rrtype", "u"), ("scheme", "u"), ("port", "u"), ("target", "nm")], None),
     "KEY": _DNSKEY,
     "RRSIG": _RRSIG, "SIG": _RRSIG,
+    "HIP": ([("algorithm", "u"), ("hit", "b"), ("key", "b")], ("servers", "nl")),
+    "TKEY": ([("algorithm", "nm"), ("inception", "u"), ("expiration", "u"), ("mode", "u"), ("error", "u"), ("key", "b")], ("other", "b")),
+    "TSIG": ([("algorithm", "nm"), ("time_signed", "u"), ("fudge", "u"), ("mac", "len"), ("mac", "b"), ("original_id", "u"), ("error", "u"),
+              ("other", "len")], ("other", "b")),
     "NSEC": ([("next", "nm")], ("windows", "wl")),
     "CSYNC": ([("serial", "u"), ("flags", "u")], ("windows", "wl")),
     "NSEC3": ([("algorithm", "u"), ("flags", "u"), ("iterations", "u"), ("salt", "b"), ("next", "b")], ("windows", "wl")),
 }
 B64_TAIL = {"DNSKEY", "CDNSKEY", "DHCID", "OPENPGPKEY", "BRID", "HHIT", "CERT", "KEY", "RRSIG", "SIG"}
+NOWIRE = {"HIP", "TKEY", "TSIG"}  # modelled without a wire codec: their generic form is oracle-only
+B64_ONE = {"HIP": ["key"], "TKEY": ["key"], "TSIG": ["mac", "other"]}  # base64 values read from a single token
 TXT_LIKE = {"TXT", "SPF", "AVC", "NINFO", "RESINFO", "WALLET"}
 
 
@@ -561,6 +575,10 @@ def _fv(v, kind):
         return "b" + hx(socket.inet_pton(socket.AF_INET6, v))
     if kind == "bl":
         return "l" + ";".join(hx(bytes(x)) for x in v)
+    if kind == "len":
+        return "u" + str(len(v))
+    if kind == "nl":
+        return "m" + ";".join(enc_labels(x.labels) for x in v)
     if kind == "wl":
         return "w" + ";".join(f"{int(w)}:{hx(bytes(bm))}" for w, bm in v)
     raise ValueError(kind)
@@ -596,6 +614,26 @@ def model_corr_fromtext(ctx, c, tname, text, origin, rel, rd, relto=None):
     if tname in MODEL and any(k == "nm" for _, k in MODEL[tname][0]) and not ascii_only_names(text):
         ctx.count("corr.skip.non-ascii-with-name-field(IDNA)")
         return
+    if generic and tname in NOWIRE:
+        ctx.count("corr.skip.generic-form-of-type-without-model-wire-codec")
+        return
+    if rd is not None and tname in B64_ONE and not generic:
+        try:
+            toks = ["".join(chr(int(x)) for x in t.split(":", 1)[1].split(",")) if not t.endswith(":-") else "" for t in lex_impl(text).split(" ") if t]
+        except Exception:
+            toks = []
+        for attr in B64_ONE[tname]:
+            v = getattr(rd, attr)
+            if len(v) == 0 and tname == "TSIG" and attr == "other":
+                continue
+            if len(v) == 0 or base64.b64encode(v).decode() not in toks:
+                ctx.count("corr.skip.noncanonical-base64")
+                return
+        if tname == "TKEY":
+            concat = "".join(toks[6:])
+            if concat != base64.b64encode(rd.other).decode():
+                ctx.count("corr.skip.noncanonical-base64")
+                return
     if rd is not None and tname in B64_TAIL and not generic:
         fields, tail = MODEL[tname]
         blob = getattr(rd, tail[0])
@@ -1102,7 +1140,7 @@ def gen_ft(ctx: Ctx, scale: float, rng):
 # per-type status of the Lean side (mirrors C05.provedTypes / Model.modelledTypes; the oracle covers every type)
 PROVED = ["A", "AAAA", "NS", "CNAME", "PTR", "DNAME", "NSAP-PTR", "MX", "AFSDB", "RT", "KX", "LP", "PX", "SRV", "RP", "SOA", "TXT", "SPF", "AVC",
           "NINFO", "RESINFO", "WALLET", "HINFO", "X25", "ISDN", "NAPTR", "CAA", "URI", "DS", "DLV", "CDS", "TLSA", "SMIMEA", "SSHFP", "ZONEMD", "DNSKEY",
-          "CDNSKEY", "DHCID", "OPENPGPKEY", "BRID", "HHIT", "L32", "NSEC3PARAM", "CH-A", "EUI48", "EUI64", "NID", "L64", "NSAP", "CERT", "DSYNC", "KEY", "RRSIG", "SIG", "NSEC", "CSYNC", "NSEC3"]
+          "CDNSKEY", "DHCID", "OPENPGPKEY", "BRID", "HHIT", "L32", "NSEC3PARAM", "CH-A", "EUI48", "EUI64", "NID", "L64", "NSAP", "CERT", "DSYNC", "KEY", "RRSIG", "SIG", "NSEC", "CSYNC", "NSEC3", "HIP", "TKEY", "TSIG"]
 
 
 def type_status():
